@@ -36,8 +36,8 @@ Helpers == <<
   [h |-> C2("u", X, Y), b |-> Conj(Q1(X), R2(X, Y))],
   Fact(S2(b, I(1))), Fact(S2(a, I(2))), Fact(S2(b, I(3))), Fact(S2(a, I(1))), Fact(S2(c, I(2))), Fact(S2(a, I(2))),
   Fact(S3(I(1), a, A("x"))), Fact(S3(I(2), b, A("x"))), Fact(S3(I(3), a, A("y"))), Fact(S3(I(1), b, A("y"))),
-  Fact(Mem(X, Cons(X, V("_")))),
-  [h |-> Mem(X, Cons(V("_"), V("T"))), b |-> Mem(X, V("T"))],
+  Fact(Mem(X, Cons(X, V("T")))),            \* (no variable may be named "_": the machine's fresh copies are VI("_", k))
+  [h |-> Mem(X, Cons(V("H"), V("T"))), b |-> Mem(X, V("T"))],
   Fact(C3("app", Nil, X, X)),
   [h |-> C3("app", Cons(V("H"), V("T")), Y, Cons(V("H"), V("R"))), b |-> C3("app", V("T"), Y, V("R"))]
 >>
